@@ -36,6 +36,21 @@ pub fn type_labels() -> Vec<String> {
     v
 }
 
+/// The types whose layout starts with at least two fixed-width fields in
+/// front of anything of variable length: for these the field-pair relation
+/// must be populated (it is what notices a permuted field order).
+pub fn field_pair_types() -> Vec<String> {
+    rr::ALL_TYPES
+        .iter()
+        .filter(|&&t| t != rr::IPSECKEY)
+        .filter(|&&t| {
+            let f = rr::schema(t).unwrap_or(&[]);
+            f.iter().take_while(|f| matches!(f, rr::F::U8 | rr::F::U16 | rr::F::U32 | rr::F::U48 | rr::F::Fixed(_))).count() >= 2
+        })
+        .map(|&t| rr::mnemonic(t))
+        .collect()
+}
+
 fn tname(rtype: u16) -> String {
     if rr::schema(rtype).is_some() {
         rr::mnemonic(rtype)
@@ -177,6 +192,102 @@ fn len_fields_raw(rtype: u16, rd: &[u8]) -> Vec<(usize, usize, usize)> {
     out
 }
 
+/// The octet ranges of the fields of uncompressed RDATA that can take an
+/// octet tweak without changing the structure: fixed-width integer/address
+/// fields, the *content* of length-prefixed fields and the opaque rest.
+/// Names, bitmaps, parameter lists and the IPSECKEY gateway are left out
+/// (they are skipped over); empty fields are not listed.
+fn plain_fields(rtype: u16, rd: &[u8]) -> Vec<(usize, usize)> {
+    let mut out = vec![];
+    let Some(fields) = rr::schema(rtype) else { return out };
+    let end = rd.len();
+    let mut pos = 0usize;
+    let mut gw = 0u8;
+    for (i, f) in fields.iter().enumerate() {
+        let mut content: Option<(usize, usize)> = None;
+        let adv = match *f {
+            rr::F::U8 => {
+                if rtype == rr::IPSECKEY && i == 1 && pos < end {
+                    gw = rd[pos];
+                } else {
+                    content = Some((pos, 1));
+                }
+                1
+            }
+            rr::F::U16 => {
+                content = Some((pos, 2));
+                2
+            }
+            rr::F::U32 => {
+                content = Some((pos, 4));
+                4
+            }
+            rr::F::U48 => {
+                content = Some((pos, 6));
+                6
+            }
+            rr::F::Fixed(n) => {
+                content = Some((pos, n));
+                n
+            }
+            rr::F::Name { .. } => match rr::read_name(rd, pos, end) {
+                Ok((_, next, _)) => next - pos,
+                Err(_) => return out,
+            },
+            rr::F::CharStr | rr::F::Len8 | rr::F::CaaTag => {
+                if pos >= end {
+                    return out;
+                }
+                content = Some((pos + 1, rd[pos] as usize));
+                1 + rd[pos] as usize
+            }
+            rr::F::Len16 => {
+                if pos + 2 > end {
+                    return out;
+                }
+                let n = u16::from_be_bytes([rd[pos], rd[pos + 1]]) as usize;
+                content = Some((pos + 2, n));
+                2 + n
+            }
+            rr::F::CharStrs => {
+                let mut p = pos;
+                while p < end {
+                    let n = rd[p] as usize;
+                    if n > 0 && p + 1 + n <= end {
+                        out.push((p + 1, n));
+                    }
+                    p += 1 + n;
+                }
+                end.saturating_sub(pos)
+            }
+            rr::F::IpsecGateway => match gw {
+                1 => 4,
+                2 => 16,
+                3 => match rr::read_name(rd, pos, end) {
+                    Ok((_, next, _)) => next - pos,
+                    Err(_) => return out,
+                },
+                _ => 0,
+            },
+            rr::F::Rest => {
+                content = Some((pos, end.saturating_sub(pos)));
+                end.saturating_sub(pos)
+            }
+            rr::F::Bitmap | rr::F::SvcParams | rr::F::OptOptions => end.saturating_sub(pos),
+        };
+        if let Some((o, n)) = content {
+            if n > 0 && o + n <= end {
+                out.push((o, n));
+            }
+        }
+        pos += adv;
+        if pos > end {
+            return out;
+        }
+    }
+    out
+}
+
 /// Mutates `src` into a related RDATA candidate. The candidate may be
 /// invalid; validity is decided later (reference walk + library parse).
 fn relative(u: &mut Unstructured, bulk: &mut Unstructured, rtype: u16, src: &[u8], pool: &[Labels], o: grd::Opts) -> (Vec<u8>, &'static str) {
@@ -289,12 +400,30 @@ fn relative(u: &mut Unstructured, bulk: &mut Unstructured, rtype: u16, src: &[u8
             // differently under any permutation of the fields they sit in
             let mut v = src.to_vec();
             let i = pick(u, v.len() - 1);
-            let span = if flag(u) { 8 } else { 64 };
-            let j = i + 1 + pick(u, (v.len() - 1 - i).min(span));
+            let sel = byte(u);
+            let span = if sel & 1 == 1 { 8 } else { 64 };
+            let pf = plain_fields(rtype, src);
+            let (i, j) = if sel & 2 == 2 && pf.len() >= 2 {
+                // field-pair mode: the two octets sit in two DIFFERENT
+                // fields of the type's layout (so every pair of fields,
+                // also two adjacent one-octet fields behind a long blob's
+                // header, is hit with a probability that does not depend on
+                // the length of the RDATA)
+                let fa = pick(u, pf.len() - 1);
+                let fb = fa + 1 + pick(u, (pf.len() - 1 - fa).min(if sel & 4 == 4 { 1 } else { 8 }));
+                let at = |u: &mut Unstructured, (o, n): (usize, usize)| match pick(u, 3) {
+                    0 => o,
+                    1 => o + n - 1,
+                    _ => o + pick(u, n.min(8)),
+                };
+                (at(u, pf[fa]), at(u, pf[fb]))
+            } else {
+                (i, i + 1 + pick(u, (v.len() - 1 - i).min(span)))
+            };
             let up = flag(u);
             v[i] = if up { v[i].wrapping_add(1) } else { v[i].wrapping_sub(1) };
             v[j] = if up { v[j].wrapping_sub(1) } else { v[j].wrapping_add(1) };
-            (v, "two-tweak")
+            (v, if sel & 2 == 2 && pf.len() >= 2 { "two-tweak-fields" } else { "two-tweak" })
         }
         11 if !len_fields(rtype, src).is_empty() => {
             // a length-prefixed field (character string, salt, hash, MAC,
@@ -783,6 +912,10 @@ pub fn run(data: &[u8], ctx: &mut Ctx) -> CaseResult {
     ctx.class(format!("type:{t}"));
     for m in &mem {
         ctx.class(format!("rel:{}", m.rel));
+        if m.rel == "two-tweak-fields" {
+            // surviving (accepted by the library) field-pair members per type
+            ctx.class(format!("two-tweak-fields:{}", tname(m.rtype)));
+        }
     }
     for (m, p) in mem.iter().zip(&ps) {
         if p.rd_in_msg_len < m.rd.len() {
